@@ -266,25 +266,34 @@ def gen_constraints(rng, desc, allow_same_chip=True):
     desc["same_chip"] = same
 
 
-def gen_keys(rng, n, style=None):
-    """n mutually orthogonal (key, mask) pairs + the window of bit positions that carry X bits"""
+def gen_keys(rng, n, style=None, reuse=None):
+    """n mutually orthogonal (key, mask) pairs + the window of bit positions that carry X bits.
+    reuse = (bits, base, [(key, mask), ...]): start from key-masks that an EARLIER minimisation in this
+    process produced (a later application re-using coarser keys of the same key space)."""
     style = style or rng.choice(["full32", "window", "window", "window_x"])
     if style == "full32":
         keys = set()
         while len(keys) < n:
             keys.add(rng.getrandbits(32))
         return [[k, 0xffffffff] for k in sorted(keys, key=lambda k: rng.random())], []
-    bits = sorted(rng.sample(range(32), 4)) if rng.random() < 0.25 else [0, 1, 2, 3]
-    base = rng.getrandbits(32) if rng.random() < 0.25 else 0
+    if reuse:
+        bits, base, first = reuse
+        first = [list(km) for km in first][:max(1, n - 2)]
+    else:
+        bits = sorted(rng.sample(range(32), 4)) if rng.random() < 0.25 else [0, 1, 2, 3]
+        base = rng.getrandbits(32) if rng.random() < 0.25 else 0
+        first = []
     for b in bits:
         base &= ~(1 << b)
-    px = 0.0 if style == "window" else rng.choice([0.2, 0.35, 0.5])
-    out = []
+    px = 0.0 if style == "window" else rng.choice([0.1, 0.2, 0.35, 0.5])
+    out = list(first)
     tries = 0
     while len(out) < n:
         tries += 1
-        if tries > 200:           # the patterns chosen so far leave no room: start again without X bits
-            px, out, tries = 0.0, [], 0
+        if tries > 200:           # the patterns chosen so far leave no room: start again with fewer X bits
+            px, out, tries = px / 2 if px > 0.05 else 0.0, list(first), 0
+            if not px and first:
+                first = first[:-1]
         key, mask = base, 0xffffffff
         for b in bits:
             if rng.random() < px:
@@ -293,6 +302,7 @@ def gen_keys(rng, n, style=None):
                 key |= 1 << b
         if all(orthogonal((key, mask), tuple(o)) for o in out):
             out.append([key, mask])
+    rng.shuffle(out)
     return out, bits
 
 
@@ -668,7 +678,9 @@ def run(tier="quick", seed=0):
             desc["family"] = "R"
             evaluate(desc)
 
-        # ---- family K: key-dense problems, one routing, several key assignments
+        # ---- family K: key-dense problems, one routing, several key assignments; half of the assignments
+        # start from a key-mask which an earlier minimisation in this run produced by merging
+        pool, seen_merged = [], set()
         for _ in range(30000 if thorough else 2200):
             desc = finish(gen_machine(rng))
             desc["cores"] = max(desc["cores"], 3)
@@ -710,7 +722,11 @@ def run(tier="quick", seed=0):
                 continue        # D8: reported by families S/R (chip_twice)
             for _k in range(8):
                 d2 = dict(desc)
-                d2["keys"], d2["window"] = gen_keys(rng, nn, rng.choice(["window", "window_x", "window_x"]))
+                reuse = None
+                if pool and rng.random() < 0.5:
+                    bits, base, km = rng.choice(pool[-60:])
+                    reuse = (bits, base, [km])
+                d2["keys"], d2["window"] = gen_keys(rng, nn, rng.choice(["window", "window_x", "window_x"]), reuse)
                 d2["methods"] = list(rng.choice([("oc",), ("dr", "oc"), ("oc",)]))
                 d2["target"] = rng.choice([None, None, None, 1, 2, 3, 1024])
 
@@ -733,7 +749,15 @@ def run(tier="quick", seed=0):
                         return out
                     out.placements, out.allocations = pl, al
                     return out
-                evaluate(d2, prepared, routed)
+                res = evaluate(d2, prepared, routed)
+                if res.tables is not None and d2["window"]:
+                    given = set(tuple(km) for km in d2["keys"])
+                    wmask = sum(1 << b for b in d2["window"])
+                    for t in res.tables.values():
+                        for e in t:
+                            if (e.key, e.mask) not in given and e.mask & wmask and (e.key, e.mask) not in seen_merged:
+                                seen_merged.add((e.key, e.mask))
+                                pool.append((d2["window"], e.key & ~wmask, (e.key, e.mask)))
 
     global_state = random.getstate()
     try:
